@@ -180,6 +180,10 @@ class Walker:
                 src = self.read_place(base[1], env, events)
                 return ("variant", src, base[2])
             b = self.read_place(base, env, events) if base[0] != "deref" else None
+            if base[0] == "deref" and base[1][0] == "ref" and base[1][1][0] == "local":
+                inner = env.get(base[1][1])
+                if inner is not None and inner[0] == "agg" and pl[2] < len(inner[2]):
+                    return inner[2][pl[2]]
             if b is not None and b[0] == "agg" and pl[2] < len(b[2]):
                 return b[2][pl[2]]
             if b is not None and b[0] == "box":
@@ -217,7 +221,10 @@ class Walker:
             return ("ord", m.group(1))
         m = re.fullmatch(r"(&raw (?:mut|const) |&mut |&)(.+)", txt, re.S)
         if m:
-            return ("ref", self.place(m.group(2), env, fid))
+            pl = self.place(m.group(2), env, fid)
+            if pl[0] == "deref" and isinstance(pl[1], tuple) and pl[1][0] == "ref":
+                return pl[1]  # reborrow &*r == r
+            return ("ref", pl)
         m = re.fullmatch(r"(Ne|Eq|Gt|Lt|Le|Ge)\((.+)\)", txt)
         if m:
             a, b = split_top(m.group(2))
@@ -313,7 +320,12 @@ class Walker:
         env = {}
         fid = self.fresh()
         for i in range(1, f.nparams + 1):
-            env[("local", fid, i)] = (argvals or {}).get(i, ("arg", entry, i))
+            av = (argvals or {}).get(i, ("arg", entry, i))
+            if av[0] == "byref_agg":
+                # a reference to a handle whose fields are known abstractly (e.g. BytesMut{.., data: <handle's data value>})
+                env[("local", fid, 1000 + i)] = ("agg", av[1], list(av[2]))
+                av = ("ref", ("local", fid, 1000 + i))
+            env[("local", fid, i)] = av
         self.walk(f, fid, "bb0", env, [], [], depth=0, visits={})
         return self.paths
 
